@@ -168,9 +168,9 @@ def run(v, tier, seed):
         with cf.ThreadPoolExecutor(max_workers=12) as ex:
             fs = [ex.submit(vectors, ["all"] if quick else ["all", "triples"])]
             scale = float(os.environ.get("VERIF_SCALE", "1"))           # < 1: a reduced thorough run
-            nsh, per = (4, 700) if quick else (8, max(200, int(12000 * scale)))
+            nsh, per = (4, 700) if quick else (8, max(200, int(40000 * scale)))
             fs += [ex.submit(random_vectors, k, per) for k in range(nsh)]
-            if not quick: fs.append(ex.submit(random_vectors, 99, max(200, int(4000 * scale)), "asan"))
+            if not quick: fs.append(ex.submit(random_vectors, 99, max(200, int(8000 * scale)), "asan"))
             fs.append(ex.submit(pyecho, 60 if quick else max(100, int(2000 * scale))))
             f_self = ex.submit(selftest)
             errors = []          # a machinery failure must not mask a violation already found on the real code
